@@ -1,21 +1,34 @@
 (* Proofs/MacroFloatExamples.v -- the executable reference for the float-spelling dependency
-   (Model/MacroFloat.lexical_f64) at work: which literals belong to the float domain of C19,
-   and the C19 example document under that reference.  (Kept out of Props/C19.v so that
-   file does not load the Flocq libraries.) *)
+   (Model/MacroFloat.lexical_float) at work: how float literals of any spelling, f64 and f32,
+   are re-spelt, and the C19 example documents under that reference.  (Kept out of
+   Props/C19.v so that file does not load the Flocq libraries.) *)
 From JsonSyntax Require Import Base.Prelude Base.Value Model.Macro Model.MacroFloat Spec.MacroDoc Props.C19.
 
-(* 1.5, 0.1, 1e21, 1e-7, 2.675e21 are re-spelt as themselves; 100.0, 1.50, 1e5 are not *)
-Example float_domain :
+(* 1.5, 0.1, 1e21, 1e-7, 2.675e21 are re-spelt as themselves; 100.0, 1.50, 1e5, 0.0 ... are not *)
+Example float_respelling_f64 :
   map lexical_f64 [s2l "1.5"; s2l "0.1"; s2l "1e21"; s2l "1e-7"; s2l "2.675e21"; s2l "100.0"; s2l "1.50"; s2l "1e5";
-                   s2l "0.00001"; s2l "0.000001"; s2l "9999999999.5"; s2l "12345678901.5"]
+                   s2l "0.00001"; s2l "0.000001"; s2l "9999999999.5"; s2l "12345678901.5";
+                   s2l "0.0"; s2l "5.0"; s2l "2147483648.0"; s2l "1e10"; s2l "1E+3"; s2l "007.5"; s2l "3"]
   = [Some (s2l "1.5"); Some (s2l "0.1"); Some (s2l "1e21"); Some (s2l "1e-7"); Some (s2l "2.675e21"); Some (s2l "100");
      Some (s2l "1.5"); Some (s2l "100000");
-     Some (s2l "0.00001"); Some (s2l "1e-6"); Some (s2l "9999999999.5"); Some (s2l "1.23456789015e10")].
+     Some (s2l "0.00001"); Some (s2l "1e-6"); Some (s2l "9999999999.5"); Some (s2l "1.23456789015e10");
+     Some (s2l "0"); Some (s2l "5"); Some (s2l "2147483648"); Some (s2l "1e10"); Some (s2l "1000"); Some (s2l "7.5"); Some (s2l "3")].
 Proof. vm_compute. reflexivity. Qed.
 
+Example float_respelling_f32 :
+  map lexical_f32 [s2l "123456792"; s2l "2147483648"; s2l "16777217.0"; s2l "1e10"; s2l "1.1e10"; s2l "0.1"; s2l "2.5e-3";
+                   s2l "0.0"; s2l "1"; s2l "3.4028235e38"; s2l "1e-45"; s2l "385121.625"; s2l "1e39"]
+  = [Some (s2l "123456790"); Some (s2l "2147483600"); Some (s2l "16777216"); Some (s2l "1e10"); Some (s2l "1.1e10");
+     Some (s2l "0.1"); Some (s2l "0.0025"); Some (s2l "0"); Some (s2l "1"); Some (s2l "3.4028235e38"); Some (s2l "1e-45");
+     Some (s2l "385121.63"); None].
+Proof. vm_compute. reflexivity. Qed.
+
+(* the reference agrees with the table [ex_fmt] of Props/C19.v on the example documents *)
 Example example_expand_with_reference :
-  expand lexical_f64 ex_env 64 (tokens ex_doc) = Some (value_of ex_doc).
-Proof. vm_compute. reflexivity. Qed.
+  expand lexical_float ex_env 64 (tokens ex_doc) = Some (value_of ex_doc)
+  /\ expand lexical_float ex_env 64 (tokens ex_floats) = Some (value_of ex_floats).
+Proof. vm_compute. split; reflexivity. Qed.
 
-Print Assumptions float_domain.
+Print Assumptions float_respelling_f64.
+Print Assumptions float_respelling_f32.
 Print Assumptions example_expand_with_reference.
